@@ -68,9 +68,44 @@ def r1_operator_tables(ctx):
                 ok = want is not None and all(g == want for g in got)
             ctx.ob("C15.R1", f"{OPT}::operator/{name} -> {val}", OPT, d.lineno, ok,
                    "" if ok else (f"operator.{name} is rewritten to {val}, the reference says ast.{want}" if want else f"operator.{name} has no entry in the reference table: unreviewed rewrite"))
-    # arity asserts
-    asserts = [a for a in ast.walk(fn) if isinstance(a, ast.Assert) and "len(node.args)" in P.un(a.test)]
-    ctx.ob("C15.R1", f"{OPT}::arity asserted for every rewrite ({len(asserts)})", OPT, fn.lineno, len(asserts) >= 4, "" if len(asserts) >= 4 else "arity assertions disappeared")
+    # a call is rewritten only if it is a plain positional call of the operator's arity: the operands
+    # are taken out of node.args behind a guard on their number (a call with the wrong number is left
+    # alone and fails at run time, as the unoptimised code does -- an assert or a failing unpack would
+    # fail the compilation of code that may never run), and no rewritten node is built from a call
+    # that carries keyword or starred arguments (they, and the effects of evaluating them, would vanish)
+    g = CFG(fn)
+    takes = [a for a in ast.walk(fn) if isinstance(a, ast.Assign) and ("node.args" == P.un(a.value) or P.un(a.value).startswith("node.args["))]
+    if len(takes) < 5:
+        raise AnalysisError("the optimizer no longer takes its operands out of node.args in the recognised way")
+    for a in takes:
+        k = len(a.targets[0].elts) if isinstance(a.targets[0], ast.Tuple) else 1
+
+        def arity_guard(t, _b, lab, k=k):
+            txt = P.un(t.ast) if t.kind == "test" else ""
+            return (txt == f"len(node.args) != {k}" and lab is False) or (txt == f"len(node.args) == {k}" and lab is True)
+
+        nodes = [nd for nd in g.nodes if nd.ast is a]
+        ok = bool(nodes) and all(g.edge_dominated(nd, arity_guard) for nd in nodes)
+        guard = next((P.un(x.test) for x in P.ancestors(a) if isinstance(x, ast.If) and "len(node.args)" not in P.un(x.test)), "top")
+        ctx.ob("C15.R1", f"{OPT}::{k} operand(s) taken behind a guard on len(node.args) (under `{guard[:50]}`)", OPT, a.lineno, ok,
+               "" if ok else f"`{P.un(a)}` runs for a call with any number of arguments: (operator/add 1), even in a function that is never called, fails the compilation with ValueError/AssertionError/IndexError instead of raising TypeError when (and if) it runs",
+               witness="(let [f (fn [] (operator/add 1))] :never-called) => ValueError out of the optimizer")
+
+    def kw_guard(t, _b, lab):
+        if t.kind != "test":
+            return False
+        e = t.ast
+        parts = e.values if isinstance(e, ast.BoolOp) and isinstance(e.op, ast.Or) else [e]
+        if lab is False and any(P.un(p) in ("node.keywords", "len(node.keywords) > 0", "len(node.keywords) != 0") for p in parts):
+            return True
+        parts = e.values if isinstance(e, ast.BoolOp) and isinstance(e.op, ast.And) else [e]
+        return lab is True and any(P.un(p) in ("not node.keywords", "len(node.keywords) == 0") for p in parts)
+
+    built = [r for r in _returns(fn) if isinstance(r.value, ast.Call) and P.un(r.value.func).startswith("ast.")]
+    bad = [r for r in built if not all(g.edge_dominated(nd, kw_guard) for nd in g.nodes if nd.ast is r)]
+    ctx.ob("C15.R1", f"{OPT}::no rewritten node is built from a call with keyword arguments", OPT, fn.lineno, bool(built) and not bad,
+           "" if built and not bad else f"`{P.un(bad[0].value) if bad else '?'}` is built from node.args alone whatever node.keywords holds: the keyword arguments and the effects of evaluating them disappear",
+           witness="(try (operator/add 1 2 ** :x (println \"effect\")) (catch python/TypeError _ :type-error)) => 3, nothing printed")
 
 
 def _returns(fn):
@@ -204,10 +239,74 @@ def r4_statement_dropping(ctx):
         kinds |= {P.un(e) for e in (spec.elts if isinstance(spec, ast.Tuple) else [spec])}
     ok = kinds == {"ast.Break", "ast.Continue", "ast.Raise", "ast.Return"}
     ctx.ob("C15.R4", f"{OPT}::_filter_dead_code cuts after {sorted(kinds)}", OPT, fd.lineno, ok, "" if ok else "code is cut after a statement that does not end the block")
-    # the terminator itself is kept, and everything before it
-    txt = P.un(fd)
-    ok = txt.count("new_nodes.append(node)") == 2 and "break" in txt
-    ctx.ob("C15.R4", f"{OPT}::_filter_dead_code keeps the terminator and its predecessors", OPT, fd.lineno, ok, "" if ok else "the dead-code filter drops live statements")
+    # what the filter keeps, evaluated (own interpreter, modelled ast nodes) on every statement list
+    # of length <= 3 over one representative per kind it can tell apart: the terminator itself and
+    # everything before it stay, nothing reachable goes, and whether the enclosing function contains
+    # a `yield` of its own -- which is what makes it a generator, reachable or not -- does not change
+    from ..minipy import ClassModel, Interp, Obj, PyRaise, Unsupported
+    import itertools
+
+    def mk(name):
+        return ClassModel(ast.parse(f"class {name}:\n    pass\n").body[0])
+
+    K = {n: mk(n) for n in ("Expr", "Return", "Raise", "Break", "Continue", "If", "FunctionDef", "Yield", "YieldFrom", "Call", "Lambda", "ClassDef", "AsyncFunctionDef")}
+
+    def node(kind, *children):
+        return Obj(K[kind], _children=tuple(children))
+
+    def kinds_universe():
+        return {
+            "call": lambda: node("Expr", node("Call")),
+            "yield": lambda: node("Expr", node("Yield")),
+            "yield-from-in-if": lambda: node("If", node("Call"), node("Expr", node("YieldFrom"))),
+            "nested-def-with-yield": lambda: node("FunctionDef", node("Expr", node("Yield"))),
+            "return": lambda: node("Return", node("Call")),
+            "raise": lambda: node("Raise", node("Call")),
+            "break": lambda: node("Break"),
+            "continue": lambda: node("Continue"),
+        }
+
+    def own_yield(n):
+        if n.cls.name in ("Yield", "YieldFrom"):
+            return True
+        if n.cls.name in ("FunctionDef", "AsyncFunctionDef", "Lambda", "ClassDef"):
+            return False
+        return any(own_yield(c) for c in n.f["_children"])
+
+    def walk(n):
+        out = [n]
+        for c in n.f["_children"]:
+            out.extend(walk(c))
+        return out
+
+    interp = Interp(globals_={"ast.iter_child_nodes": lambda n: n.f["_children"], "ast.walk": lambda n: tuple(walk(n))}, fuel=5_000_000)
+    interp.mutable_lists = True
+    for f in [s for s in ctx.py(OPT).body if isinstance(s, P.FUNC)]:
+        interp.globals[f.name] = (lambda *a, _f=f: interp.call_function(_f, list(a), {}))
+    U = kinds_universe()
+    TERM = {"return", "raise", "break", "continue"}
+    probs = {"live": None, "gen": None}
+    n_lists = 0
+    try:
+        for ln in range(0, 4):
+            for combo in itertools.product(sorted(U), repeat=ln):
+                n_lists += 1
+                stmts = [U[k]() for k in combo]
+                got = list(interp.call_function(fd, [list(stmts)], {}))
+                cut = next((i for i, k in enumerate(combo) if k in TERM), len(combo) - 1)
+                is_prefix = len(got) <= len(stmts) and all(a is b for a, b in zip(got, stmts))
+                if not (is_prefix and len(got) >= cut + 1) and probs["live"] is None:
+                    probs["live"] = f"[{', '.join(combo)}] is filtered to {len(got)} statement(s){'' if is_prefix else ' (not a prefix of the input)'}: reachable statements are dropped or reordered"
+                if any(own_yield(s) for s in stmts) != any(own_yield(s) for s in got) and probs["gen"] is None:
+                    probs["gen"] = f"[{', '.join(combo)}] loses its only `yield` with the unreachable tail: the enclosing function stops being a generator"
+    except Unsupported as e:
+        raise AnalysisError(f"_filter_dead_code outside the interpretable fragment: {e}")
+    except PyRaise as e:
+        probs["live"] = f"_filter_dead_code raises {e.name} on a modelled statement list"
+    ctx.ob("C15.R4", f"{OPT}::_filter_dead_code keeps the terminator and its predecessors", OPT, fd.lineno, probs["live"] is None, probs["live"] or "")
+    ctx.ob("C15.R4", f"{OPT}::_filter_dead_code never removes the last yield of a function", OPT, fd.lineno, probs["gen"] is None, probs["gen"] or "",
+           witness="(fn [] (throw (python/ValueError \"boom\")) (yield 1)) is a generator function without the pass and raises at call time with it")
+    ctx.note(f"C15.R4: _filter_dead_code evaluated on {n_lists} statement lists")
 
 
 def _pure_test(node) -> bool:
@@ -393,6 +492,19 @@ def r8_expression_stays_expression(ctx):
 
 
 SELFTEST = [
+    {"name": "dead-code filter drops an unreachable yield (the repaired defect)", "file": OPT, "expect": "C15.R4",
+     "old": "            if _contains_yield(all_nodes[i + 1 :]):\n                return all_nodes\n", "new": ""},
+    {"name": "dead-code filter drops the terminator too", "file": OPT, "expect": "C15.R4",
+     "old": "            return all_nodes[: i + 1]\n", "new": "            return all_nodes[:i]\n"},
+    {"name": "twin: the yield test also looks into nested functions (keeps more, drops nothing live)", "file": OPT, "expect": None,
+     "old": "        if isinstance(\n            node, (ast.FunctionDef, ast.AsyncFunctionDef, ast.Lambda, ast.ClassDef)\n        ):\n            continue\n", "new": ""},
+    {"name": "keyword arguments of a rewritten operator call vanish (the repaired defect)", "file": OPT, "expect": "C15.R1",
+     "old": "        if node.keywords or any(isinstance(arg, ast.Starred) for arg in node.args):\n            return node\n", "new": ""},
+    {"name": "arity asserted after the unpack instead of guarded (the repaired defect)", "file": OPT, "expect": "C15.R1", "nth": 0,
+     "old": "            if len(node.args) != 2:\n                return node\n            arg1, arg2 = node.args\n", "new": "            arg1, arg2 = node.args\n            assert len(node.args) == 2\n"},
+    {"name": "twin: arity guard written positively", "file": OPT, "expect": None,
+     "old": "            if len(node.args) != 1:\n                return node\n            arg = node.args[0]\n            return ast.UnaryOp(unaryop(), arg)\n",
+     "new": "            if len(node.args) == 1:\n                arg = node.args[0]\n                return ast.UnaryOp(unaryop(), arg)\n            return node\n"},
     {"name": "sub mapped to Add", "file": OPT, "expect": "C15.R1", "old": "            \"sub\": ast.Sub,\n", "new": "            \"sub\": ast.Add,\n"},
     {"name": "new unreviewed operator entry", "file": OPT, "expect": "C15.R1", "old": "            \"xor\": ast.BitXor,\n", "new": "            \"xor\": ast.BitXor,\n            \"concat\": ast.Add,\n"},
     {"name": "le mapped to Lt", "file": OPT, "expect": "C15.R1", "old": "            \"le\": ast.LtE,\n", "new": "            \"le\": ast.Lt,\n"},
